@@ -307,9 +307,13 @@ class WSStream:
     async def _handle_events(self) -> None:
         for event in self.connection.events():
             if isinstance(event, Message):
+                if self.connection.state == ConnectionState.LOCAL_CLOSING:
+                    continue  # Closing, nothing further is delivered
+
                 try:
                     self.buffer.extend(event)
                 except FrameTooLargeError:
+                    self.buffer.clear()
                     await self._send_wsproto_event(
                         CloseConnection(code=CloseReason.MESSAGE_TOO_BIG)
                     )
